@@ -244,6 +244,29 @@ def analyze_fresh(names, rows):
     raise RuntimeError("harness: fresh-interpreter reference failed: " + (p.stderr or p.stdout)[-400:])
 
 
+_FRESH_JOBS_SCRIPT = """
+import json, sys, warnings
+sys.path.insert(0, sys.argv[1]); sys.path.insert(0, sys.argv[2])
+from harness.c18 import analyze
+jobs = json.load(sys.stdin)
+print("RESULT " + json.dumps([analyze(j["name"], j["rows"], fixed=j.get("fixed")) for j in jobs]))
+"""
+
+
+def analyze_fresh_jobs(jobs):
+    """[analyze(name, rows, fixed)] in a FRESH interpreter, every analysis on a frame and a FatigueData object of its own: no
+    memo of this (long-lived, forked) process - on an object, a class, a module or in a default argument - can reach it"""
+    import pylife
+    src = os.path.dirname(os.path.dirname(os.path.abspath(pylife.__file__)))
+    verif = os.path.dirname(os.path.dirname(os.path.abspath(__file__)))
+    p = subprocess.run([sys.executable, "-W", "ignore", "-c", _FRESH_JOBS_SCRIPT, verif, src],
+                       input=json.dumps(jobs), capture_output=True, text=True, timeout=900)
+    for line in p.stdout.splitlines():
+        if line.startswith("RESULT "):
+            return json.loads(line[7:])
+    raise RuntimeError("harness: fresh-interpreter reference failed: " + (p.stderr or p.stdout)[-400:])
+
+
 def same(a, b, rtol):
     if a != a and b != b:
         return True
@@ -590,6 +613,27 @@ def gen_intcycles(rng):
     raise RuntimeError("harness: generator could not produce an integer-cycles data set")
 
 
+def gen_session(rng):
+    """a working session: data set A, a data set B with the SAME loads, flags and row count but other cycle numbers (so that a memo
+    keyed by anything but the whole data collides), an unrelated data set C; an order of analyses; user-fixed parameters"""
+    A, _p = gen_rows(rng, ml=True)
+    for _ in range(50):
+        B = [[r[0], r[1] * (10 ** rng.uniform(-0.3, 0.3)) if r[2] else r[1], r[2]] for r in A]
+        lim = min((r[1] for r in B if not r[2]), default=None)
+        if lim is not None:
+            B = [[r[0], min(r[1], 0.99 * lim) if r[2] else r[1], r[2]] for r in B]
+        if admissible(B) and ml_admissible(B):
+            break
+    else:
+        B = gen_rows(rng, ml=True)[0]
+    C, _p = gen_rows(rng, ml=True)
+    order = ["Elementary", "Probit", "MaxLikeInf", "MaxLikeFull", "MaxLikeFull+fixed", rng.choice(["Elementary", "Probit", "MaxLikeInf"])]
+    rng.shuffle(order)
+    keys = rng.choice([["k_1"], ["TN"], ["k_1", "TN"], ["TS"]])
+    return {"kind": "session", "rows": A, "B": B, "C": C, "order": order, "labels": gen_labels(rng, A),
+            "fixed_rel": {k: (rng.uniform(1.0, 1.15) if k in ("TN", "TS") else rng.uniform(0.9, 1.1)) for k in keys}}
+
+
 def gen_history(rng):
     """a session: `first` is analysed, then `rows`; the results for `rows` must be those of a fresh interpreter"""
     rows, p = gen_rows(rng, ml=True)
@@ -841,6 +885,14 @@ class C18(Prop):
         "1e-17 instead of 0 is scaled by itself and moves as slowly as before the repair - not covered",
         "C18: a very large series (27000 tests, |log-likelihood| 7e3) must converge within 4000 objective evaluations (an absolute "
         "ftol below the rounding noise of the objective never stops: 1e4 evaluations, 9 x slower)",
+        "C18 (sessions): stale state and aliasing are checked against references from a fresh interpreter: one FatigueData object "
+        "under several analyzers and repeated analyze() calls, data sets with equal loads / flags / size alive at once and analysed "
+        "interleaved, the caller's DataFrame (values, index labels and order) and fixed_parameters dict unchanged after every call, "
+        "results of analyses handed out (Woehler parameter Series, pearl-chain arrays) modified in place before the same objects "
+        "analyse again.  NOT required (counted only): a changed dtype of a column of the caller's frame with equal values, added or "
+        "reordered columns - no later result depends on them; and: FatigueData.finite_zone / infinite_zone return the stored frames "
+        "(a caller overwriting them in place changes later analyses on that object; counted in properties_that_alias_internal_state) - "
+        "outside the property, which does not quantify over callers editing frames they were handed",
         "C18: bayesian.py (pymc) is not part of the property",
         "C18 (formalisation choice): 'the estimate for a data set' is a function of the tests (load, cycles, fracture) alone - "
         "not of the row labels of the DataFrame (checked: repeating / shuffled / string labels vs a fresh RangeIndex), not of the "
@@ -894,12 +946,14 @@ class C18(Prop):
             yield gen_ml(rng, "MaxLikeInf", early=True)
         for i in range(20 if big else 3):
             yield gen_data(rng, mode=["natural", "nonmonotonic", "pure_runout_levels"][i % 3], early=True)
+        for _ in range(8 if big else 2):
+            yield gen_session(rng)
 
     # -------------------------------------------------------------- correspondence
     def _plan(self, case):
         """the correspondence lines of a case: list of (tag, model protocol line); tags steer `impl_lines` and `compare`"""
         k = case["kind"]
-        if k in ("history", "exact_batch", "norun_real", "big"):
+        if k in ("history", "exact_batch", "norun_real", "big", "session"):
             return []
         rows = case["rows"]
         w = wire(rows)
@@ -1129,6 +1183,8 @@ class C18(Prop):
             names = ["Elementary", "Probit"] + (["MaxLikeInf"] if ml_admissible(case["rows"]) else [])
             return (self._oracle_zones(case) or self._oracle_fatigue_data(case)
                     or self._oracle_equivariance(case, names, CF_RTOL, rtols={"MaxLikeInf": ML_RTOL}))
+        if k == "session":
+            return self._oracle_session(case)
         if k == "intcycles":
             names = ["Elementary", "Probit"] + (["MaxLikeInf"] if ml_admissible(case["rows"]) else [])
             return self._oracle_equivariance(case, names, CF_RTOL, rtols={"MaxLikeInf": ML_RTOL})
@@ -1443,6 +1499,191 @@ class C18(Prop):
                         f"(repaired code: about {cap // 4}, converged)", "optimiser-budget-exceeded")
         return None
 
+    # ---------------------------------------------------------- sessions: stale state, argument integrity, aliasing
+    def _call(self, make, fixed=None):
+        """run `make()` -> analyzer object, then analyze(); returns (analyzer or None, result dict)"""
+        rec = _rec()
+        if rec is not None:
+            rec.calls, rec.stub, rec.shortcut, rec.cap = [], None, False, None
+        with warnings.catch_warnings():
+            warnings.simplefilter("ignore")
+            with np.errstate(all="ignore"):
+                try:
+                    an = make()
+                    r = an.analyze(fixed_parameters=fixed) if fixed is not None else an.analyze()
+                except OptimiserBudgetExceeded as e:
+                    return None, {"error": "BUDGET: " + str(e)}
+                except Exception as e:
+                    return None, {"error": type(e).__name__ + ": " + str(e)[:80]}
+        self._count("session_analyses")
+        return an, {k: float(r[k]) for k in KEYS}, r
+
+    @staticmethod
+    def _differs(got, ref, ml):
+        if ("error" in got) != ("error" in ref):
+            return f"{got.get('error', 'a result')} instead of {ref.get('error', 'a result')}"
+        if "error" in ref:
+            return None
+        for key in KEYS:
+            if not same(got[key], ref[key], 1e-7 if ml else CF_RTOL):      # (the same computation on the same numbers: equal but for the fmin path)
+                return f"{key} = {got[key]!r} instead of {ref[key]!r}"
+        return None
+
+    def _oracle_session(self, case):
+        """The estimate is a function of the data set (formalisation choice in ASSUMPTIONS).  Reference: every analysis as one of
+        the first analyses of a FRESH interpreter on objects of its own.  Here, in this long-lived process:
+        (1) ONE FatigueData object analysed by several analyzers in the case's order, each analyzer object twice;
+        (2) data sets A, B (same loads / flags / size, other cycles), C alive at once, analyses interleaved A B A C A;
+        (3) the caller's DataFrame and `fixed_parameters` dict keep values, index and contents after every call;
+        (4) the results of analyses handed out (parameter Series, pearl-chain arrays) are modified in place, then the same objects
+            analyse again: unchanged results.  (Which FatigueData properties hand out stored frames is counted only.)"""
+        woe = _woe()
+        A, B, C = case["rows"], case["B"], case["C"]
+        el = analyze("Elementary", A)
+        if "error" in el:
+            return (f"Elementary: {el['error']}", "implementation-raises")
+        fixedA = {k: el[k] * m for k, m in case["fixed_rel"].items()}
+        names = ["Elementary", "Probit", "MaxLikeInf", "MaxLikeFull"]
+        # one fresh interpreter PER DATA SET: a memo with too weak a key (B shares A's loads, flags and size) must not reach the reference
+        refA = dict(zip(names + ["MaxLikeFull+fixed"], analyze_fresh_jobs(
+            [{"name": n, "rows": A} for n in names] + [{"name": "MaxLikeFull", "rows": A, "fixed": fixedA}])))
+        refB = dict(zip(names, analyze_fresh_jobs([{"name": n, "rows": B} for n in names])))
+        refC = dict(zip(names, analyze_fresh_jobs([{"name": n, "rows": C} for n in names])))
+
+        def cls(step):
+            return getattr(woe, step.split("+")[0])
+
+        def ml(step):
+            return step.startswith("MaxLike")
+
+        def snapshot(df):
+            return (df.copy(deep=True), list(df.index), list(df.columns), [str(t) for t in df.dtypes])
+
+        def integrity(df, snap, what):
+            ref_df, idx, cols, dts = snap
+            if list(df.index) != idx:
+                return (f"{what}: the caller's DataFrame has another index afterwards: {list(df.index)[:6]!r}... instead of {idx[:6]!r}...",
+                        "argument-modified")
+            for c, t in zip(cols, dts):
+                if c not in df.columns:
+                    return (f"{what}: column {c!r} of the caller's DataFrame is gone", "argument-modified")
+                a, b = df[c].to_numpy(), ref_df[c].to_numpy()
+                if len(a) != len(b) or not all((x == y) or (x != x and y != y) for x, y in zip(a, b)):
+                    return (f"{what}: column {c!r} of the caller's DataFrame has other values afterwards", "argument-modified")
+                if str(df[c].dtype) != t:
+                    self._count("argument_column_dtype_changed_not_required")
+            if list(df.columns) != cols:
+                self._count("argument_columns_added_or_reordered_not_required")
+            return None
+
+        # ---- (1) + (3): one FatigueData object, several analyzers, each analyzer object twice
+        df = make_df(A, case.get("labels"))
+        snap = snapshot(df)
+        with warnings.catch_warnings():
+            warnings.simplefilter("ignore")
+            fd = df.fatigue_data
+        objects = []
+        for step in case["order"]:
+            fixed = dict(fixedA) if step.endswith("+fixed") else None
+            fixed_before = dict(fixed) if fixed is not None else None
+            out = self._call(lambda: cls(step)(fd), fixed)
+            an, got = out[0], out[1]
+            d = self._differs(got, refA[step], ml(step))
+            if d:
+                return (f"one FatigueData object, analyses {case['order']!r}: {step}: {d} (reference: the same analysis on objects of "
+                        f"its own in a fresh interpreter)", "stale-state")
+            bad = integrity(df, snap, f"after {step}(fd).analyze()")
+            if bad:
+                return bad
+            if fixed is not None and fixed != fixed_before:
+                return (f"MaxLikeFull.analyze(fixed_parameters={fixed_before!r}) changed the caller's dict to {fixed!r}", "argument-modified")
+            if an is not None:
+                objects.append((step, an, out[2], fixed_before))
+                with warnings.catch_warnings():
+                    warnings.simplefilter("ignore")
+                    with np.errstate(all="ignore"):
+                        try:
+                            r2 = an.analyze(fixed_parameters=dict(fixed_before)) if fixed_before is not None else an.analyze()
+                            got2 = {k: float(r2[k]) for k in KEYS}
+                        except Exception as e:
+                            got2 = {"error": type(e).__name__ + ": " + str(e)[:80]}
+                d = self._differs(got2, refA[step], ml(step))
+                if d:
+                    return (f"{step}: the second analyze() of the same analyzer object: {d}", "stale-state")
+        # ---- (4) what was handed out is modified in place; the same objects analyse again
+        with warnings.catch_warnings():
+            warnings.simplefilter("ignore")
+            with np.errstate(all="ignore"):
+                for step, an, res, _fx in objects:
+                    # results of ANALYSES: the Woehler parameter Series, the pearl-chain estimator's arrays
+                    try:
+                        for k in KEYS:
+                            res[k] = -1.0
+                        self._count("handed_out_results_modified")
+                    except Exception:
+                        self._count("handed_out_result_not_modifiable")
+                    try:
+                        pc = an.pearl_chain_estimator()
+                        for arr in (pc.normed_cycles, pc.occurrences, pc.percentiles):
+                            arr[:] = -1.0
+                        self._count("handed_out_pearl_chain_arrays_modified")
+                    except Exception:
+                        self._count("handed_out_pearl_chain_not_modifiable")
+        bad = integrity(df, snap, "after modifying the result Series / pearl-chain arrays handed out by the analyzers in place")
+        if bad:
+            return (bad[0], "aliased-internal-state")
+        for step, an, _res, fx in objects[:4]:
+            for how, make in (("the same analyzer object", None), ("a new analyzer on the same FatigueData object", lambda: cls(step)(fd))):
+                if make is None:
+                    with warnings.catch_warnings():
+                        warnings.simplefilter("ignore")
+                        with np.errstate(all="ignore"):
+                            try:
+                                r2 = an.analyze(fixed_parameters=dict(fx)) if fx is not None else an.analyze()
+                                got = {k: float(r2[k]) for k in KEYS}
+                            except Exception as e:
+                                got = {"error": type(e).__name__ + ": " + str(e)[:80]}
+                else:
+                    got = self._call(make, dict(fx) if fx is not None else None)[1]
+                d = self._differs(got, refA[step], ml(step))
+                if d:
+                    return (f"after the result Series and pearl-chain arrays handed out by the analyzers were modified in place, {how} ({step}) gives {d}",
+                            "aliased-internal-state")
+        # ---- (2) several data sets alive at once, analyses interleaved
+        frames = {"A": make_df(A), "B": make_df(B), "C": make_df(C)}
+        refs = {"A": refA, "B": refB, "C": refC}
+        for name in names:
+            seq = ["A", "B", "A", "C", "A"] if name != "MaxLikeFull" else ["A", "B", "A"]
+            if case["order"].index("MaxLikeFull") % 2:
+                seq = ["B", "A", "B"] + (["C", "A"] if name != "MaxLikeFull" else [])
+            for i, which in enumerate(seq):
+                got = self._call(lambda: getattr(woe, name)(frames[which]))[1]
+                d = self._differs(got, refs[which][name], ml(name))
+                if d:
+                    return (f"{name} on the data sets {' '.join(seq[:i + 1])} (all alive, B = A's loads and flags with other cycle numbers): "
+                            f"the result for {which} is {d}", "stale-state")
+        # ---- (4b) NOT part of the property, counted only: which of the FatigueData properties hand out the object's own frames
+        # (a caller who overwrites such a frame in place changes later analyses on that object; nothing in the library does)
+        for attr in ("finite_zone", "infinite_zone", "fractures", "runouts"):
+            df2 = make_df(A)
+            with warnings.catch_warnings():
+                warnings.simplefilter("ignore")
+                with np.errstate(all="ignore"):
+                    try:
+                        fd2 = df2.fatigue_data
+                        self._call(lambda: woe.Elementary(fd2))
+                        f = getattr(fd2, attr)
+                        f.loc[:, "cycles"] = 1.0
+                        f.loc[:, "load"] = 7.0
+                    except Exception:
+                        continue
+            got = self._call(lambda: woe.Elementary(fd2))[1]
+            if self._differs(got, refA["Elementary"], False):
+                st = self.stats.setdefault("properties_that_alias_internal_state", {})
+                st[attr] = st.get(attr, 0) + 1
+        self._count("session_cases_passed")
+        return None
+
     def _oracle_history(self, case):
         """the estimate for a data set is a function of the data set: analysing `first` before it changes nothing"""
         names = ["Elementary", "Probit", "MaxLikeInf", "MaxLikeFull"]
@@ -1613,7 +1854,7 @@ class C18(Prop):
 
     def shrink(self, case, still_fails):
         import time
-        if "rows" not in case:
+        if "rows" not in case or case["kind"] == "session":
             return case
         cur = dict(case)
         changed = True
